@@ -63,7 +63,7 @@ impl<'a> GeneratorState<'a> {
                 let c = self.last_included_char.next();
                 c?;
                 let c = c.unwrap();
-                self.last_included_position += 1;
+                self.last_included_position += c.len_utf8(); // positions are byte offsets
                 if c == '\n' {
                     self.last_included_line_number += 1;
                     start_of_line = self.last_included_char.clone();
@@ -77,7 +77,7 @@ impl<'a> GeneratorState<'a> {
                     return Some(start_of_line.as_str());
                 }
                 let c = c.unwrap();
-                self.last_included_position += 1;
+                self.last_included_position += c.len_utf8(); // positions are byte offsets
                 if c == '\n' {
                     self.last_included_line_number += 1;
                     return Some(
@@ -1248,7 +1248,11 @@ impl<'a> GeneratorState<'a> {
                 let mut lx = self.whitespaces_regex.replace_all(&l, " ");
                 if lx.len() > 256 {
                     let lxx = lx.to_mut();
-                    lxx.truncate(256);
+                    let mut cut = 256;
+                    while !lxx.is_char_boundary(cut) {
+                        cut -= 1;
+                    }
+                    lxx.truncate(cut);
                     lxx.push_str("...\n");
                     self.comment(&lxx)?; // Should include the '\n'
                 } else {
